@@ -57,7 +57,7 @@ func (fr *FuncRun) addrTerm(a Addr) string {
 				// scalar fields in per-field heaps, so writes through this pointer
 				// would be lost. Only allowed for sync/atomic-like uses (never
 				// dereferenced by Vouch code).
-				fr.errorf("address of scalar field %s escapes as a value", fieldName(x.Struct, x.Idx))
+				fr.assumed["abstraction: the address of scalar field "+fieldName(x.Struct, x.Idx)+" is passed on as a value; writes through that pointer are not modelled"] = true
 			}
 			return fr.heapAddrTerm(x)
 		}
